@@ -22,7 +22,7 @@ from .common import Collector
 P2A = "tola.assembly.scripts.pretext_to_asm"
 AFMT = "tola.assembly.scripts.asm_format"
 OUT = "xxTest1.2"
-SPECIMENS = pathlib.Path("/repo/tests/data")
+SPECIMENS = pathlib.Path(os.environ.get("VERIF_REPO") or "/repo") / "tests" / "data"
 
 FIXED = {"simple": g.case_simple, "multi": g.case_multi, "cut": g.case_cut, "haps": g.case_haps}
 
